@@ -106,6 +106,13 @@ class ParserTotal(BoundedCheck):
                 else:
                     toks.insert(j, rnd.choice('()[]{}<>`'))
             yield ''.join(toks)
+        if self.shard == 1 % self.nshards:
+            # every reserved word in every term position: bare, indexed and called, on either side of the equals sign, alone and after a valid line
+            import keyword as _kw
+            for w in _kw.kwlist:
+                for s in (f'{w}[1] = X', f'{w}[-1] = 0', f'{w} = X', f'Y = {w}[-1]', f'Y = X\n{w}[0] = Y', f'{w}[1] = {w}[-1]', f'{{{w}}} = X', f'<{w}>[1] = X', f'Y = {{{w}}}[1] + <{w}>',
+                          f'{w}(1) = X', f'Y = X.{w}[1]'):
+                    yield s
         if self.shard == 0:
             for s in ('Y = {}', 'Y = {a} + }{', 'Y = {0}', 'Y = 1/0', 'Y = "a" + 1', 'Y = print(1)', '```\nx=1', 'é = 1', 'Y = H[--1]', 'Y = X\nY = X', '`self.Q = 1`\n`self.Q = 1`',
                       '```\nx\n``` ', '```\nself.x\n```\t', '``` \nself.x = 1\n```', '```\nself.x = 1\n```  \nY = 1', 'Y = log(0) * X', 'Y = sqrt(X) + foo(2)', 'Y = np.log(0) + X', 'Y = X + X(1)', 'H = H(1)', 'Y = X(1) + X', 'b=A(1)+A', 'Y = f(X)\nZ = f', 'Y = exp + exp(X)', '```\nscale_ = 0.5\n```', '`q_ = 3`', 'Y = X\n`import_marker_ = [1]`', '```\nglobal g_\ng_ = 1\n```'):
@@ -210,7 +217,9 @@ class ParserTotal(BoundedCheck):
             if got != want:
                 import re as _re
                 sig = 'c13.statement-dropped'
-                lhs_without_term = any('=' in st and not _re.search(r'[A-Za-z_]', _re.sub(r'`.+?`|\{[^}]*\}|<[^>]*>|[A-Za-z_][\w.]*\s*(?=\()', '', st.split('=', 1)[0])) for st in s.splitlines())
+                import keyword as _kw
+                reserved = r'\b(?:' + '|'.join(_kw.kwlist) + r')\b(?:\s*\[[^\]]*\])?'      # an indexed reserved word is an INVALID term, not a variable
+                lhs_without_term = any('=' in st and not _re.search(r'[A-Za-z_]', _re.sub(r'`.+?`|\{[^}]*\}|<[^>]*>|[A-Za-z_][\w.]*\s*(?=\()|' + reserved, '', st.split('=', 1)[0])) for st in s.splitlines())
                 if want > got and lhs_without_term:
                     sig += ':no-term-on-left-hand-side'
                 elif '```' in s and want > got:
